@@ -9,6 +9,7 @@ import ast
 
 from ..lattice import ir_family, reaching_classes
 from ..model import call_name, own_nodes, unparse
+from ..model import returns_text
 from ..pathcond import conds_truth, path_info, truth_table
 from ..paths import enumerate_paths, path_calls
 
@@ -296,8 +297,8 @@ def run(pm, ctx):
 
     # ---------------- R5
     af = pm.func(IRM + '.Struct.all_fields')
-    ctx.check('C02-R5', len(af.node.body) == 2 and unparse(af.node.body[-1]) ==
-              'return self.all_required_fields + self.all_optional_fields',
+    ctx.check('C02-R5', returns_text(af.node) ==
+              'self.all_required_fields + self.all_optional_fields',
               'Struct.all_fields = all_required_fields + all_optional_fields', af.loc,
               msg='Struct.all_fields is no longer required fields followed by optional fields',
               key='C02-R5|%s' % af.qualname)
